@@ -486,7 +486,8 @@ def applyCalls (c : Ctx) : List (Opt × List RArg) → BState → BRes BState
 
 mutual
 inductive Arg where
-  | json (j : Json)                                         -- a plain value
+  | json (j : Json)                                         -- a plain value, as JSON (decoded at the parameter's type)
+  | val (v : GoVal)                                         -- a plain value, as the Go value itself (C14)
   | builder (name : String) (ctor : List Arg) (calls : List Call)   -- a generated builder and what was called on it
   | fail (be : Bool)                                        -- a foreign `cog.Builder[T]` whose Build() fails
   | list (xs : List Arg)                                    -- []cog.Builder[T]
@@ -516,6 +517,7 @@ def resolveArg : Nat → Ctx → Ty → Arg → BRes RArg
     match a with
     | .json j => (BRes.ofD (goDecode 64 c.ss (t.setMeta { t.getMeta with nullable := false }) j)).map .val
     | .fail be => .ok (.failed be)
+    | .val v => .ok (.val v)
     | .builder name ctor calls =>
       match findBuilder c.bs name with
       | none => .unsup ("no builder " ++ name)
